@@ -109,6 +109,10 @@ def atom(draw, sizes, names, exts, mtimes, uids):
         op = draw(st.sampled_from(draw(st.sampled_from(NUM_OPS))))
         if op in UNDOC_OPS:
             op = CANON[op]
+        if draw(st.sampled_from(range(5))) == 0:
+            # a literal with a fractional part and no unit, between two attribute values: `size > 2.5`, `uid <= 999.5`
+            frac = draw(st.sampled_from([".5", ".25", ".75", ".5", ".0"]))
+            return {"kind": "num", "col": col, "op": op, "lit": "%d%s" % (v, frac), "v": v + float("0" + frac), "decimal": True}
         lit = _size_lit(draw, v) if col == "size" else str(v)
         return {"kind": "num", "col": col, "op": op, "lit": lit, "v": v}
     if kind == "text":
@@ -374,7 +378,9 @@ def check(case):
                     tkey = canon(case["tree"])
                 nt_keys.append(tkey + "|" + cond)
                 out.classes.append("nontrivial-atom")
-            if a["kind"] == "num" and not a["lit"].isdigit():
+            if a["kind"] == "num" and a.get("decimal"):
+                out.classes.append("decimal-literal")
+            elif a["kind"] == "num" and not a["lit"].isdigit():
                 out.classes.append("unit-literal")
     finally:
         runner.rmtree(cdir)
@@ -400,6 +406,9 @@ def _a(kind, col, op, lit, **kw):
 
 
 PINNED = [
+    ("decimal-literal", {"tree": _ptree(), "atoms": [
+        _a("num", "size", "<", "0.5", v=0.5, decimal=True), _a("num", "length(name)", ">", "11.6", v=11.6, decimal=True),
+        _a("num", "size", "=", "10.0", v=10.0, decimal=True), _a("num", "hardlinks", ">=", "1.5", v=1.5, decimal=True)]}),
     ("reserved-literals", {"tree": _ptree(), "atoms": [
         _a("reserved", "name", "=", "size"), _a("reserved", "ext", "=", "bin"), _a("reserved", "name", "!=", "name"),
         _a("reserved", "name", "===", "mode"), _a("reserved", "name", "like", "size")]}),
